@@ -776,8 +776,18 @@ pub fn unhex(s: &str) -> Vec<u8> {
     (0..s.len() / 2).filter_map(|i| u8::from_str_radix(&s[2 * i..2 * i + 2], 16).ok()).collect()
 }
 
-fn worker_bin(profile: &str) -> String {
-    format!("{}/target/{}/vcheck", crate::verif_root(), profile)
+/// The worker is this very binary (release) or its sibling built with the `dbg` profile.
+pub fn worker_bin(profile: &str) -> String {
+    let me = std::env::current_exe().unwrap_or_else(|_| std::path::PathBuf::from(format!("{}/target/release/vcheck", crate::verif_root())));
+    let my_profile = if cfg!(debug_assertions) { "dbg" } else { "release" };
+    if profile == my_profile {
+        return me.to_string_lossy().into_owned();
+    }
+    // <target>/<profile>/vcheck
+    match me.parent().and_then(|p| p.parent()) {
+        Some(t) => t.join(profile).join("vcheck").to_string_lossy().into_owned(),
+        None => format!("{}/target/{}/vcheck", crate::verif_root(), profile),
+    }
 }
 
 fn engine(ctx: &Ctx, name: &'static str, inputs: Vec<Vec<u8>>, rule: &str) -> SubReport {
